@@ -140,7 +140,9 @@ def _core(prog, rep, eng, f, thr, degfn, idx):
         it = [s for s in lp.body if isinstance(s, ast.AugAssign) and isinstance(s.value, ast.Constant) and s.value.value == 1]
         I = norm(it[0].target) if it else 'iter'
         po = [s for s in _stmts(lp) if m.match(s, 'peelorder.append(%s)' % F)]
-        pl = [s for s in _stmts(lp) if m.match(s, 'peellevel.append(%s * np.ones((len(%s),)))' % (I, F))]
+        pl = [s for s in _stmts(lp) if any(m.match(s, t % {'I': I, 'F': F}) for t in (
+            'peellevel.append(%(I)s * np.ones((len(%(F)s),)))', 'peellevel.append(np.ones(len(%(F)s)) * %(I)s)',
+            'peellevel.append(np.full(len(%(F)s), %(I)s, dtype=float))', 'peellevel.append(np.full(len(%(F)s), float(%(I)s)))'))]
         okg = len(po) == 1 and len(pl) == 1 and all(any(pol and norm(t) == 'peel' for t, pol, k, o in pm.guards(x)) for x in po + pl) and len(it) == 1 \
             and lp.body.index(it[0]) > lp.body.index(ex[0]) if ex else False
         rep.ob('O.peel-records-once-per-iteration', f, '; '.join(norm(s) for s in po + pl), bool(okg),
